@@ -21,7 +21,18 @@ OPS = [(r"&&", "||"), (r"\|\|", "&&"), (r"==", "!="), (r"!=", "=="), (r"<=", "<"
        (r"Some\(\&Scope::Small\)", "Some(&Scope::Big)"), (r"\.len\(\) > 1", ".len() > 2"), (r"\.len\(\) == 1", ".len() <= 1"), (r"\.ok\(\)\?", ".ok().unwrap_or_default()")]
 
 
-def candidates(files):
+OPS2 = [(r"\.0\b(?!\.\d)", ".1"), (r"\.1\b(?!\.\d)", ".0"), (r"\(([a-z_][a-z_0-9.]*), ([a-z_][a-z_0-9.]*)\)", r"(\2, \1)"), (r"Some\(([a-z_]+)\)(?= =>)", r"Some(\1) if false"),
+        (r"^(\s*)([a-z_][\w.]*\.(?:insert|push|push_str|extend|extend_from|remove|mark_used|insert_str)\(.*\);)\s*$", r"\1"), (r" \+ ", " - "), (r" - ", " + "),
+        (r"\.iter\(\)\.enumerate\(\)", ".iter().rev().enumerate()"), (r"\.zip\(", ".zip(std::iter::repeat(()).map(|_| unreachable!()).take(0).chain("),
+        (r"\.then\(\|\|", ".then_some(()).map(|_|"), (r"\bu8\b", "u16"), (r"as u32", "as u16 as u32"), (r"'\('", "'['"), (r"\"\{\}: \{\}\"", "\"{}:{}\""), (r"\.unwrap_or\(false\)", ".unwrap_or(true)"),
+        (r"\.is_compact\(\)", ".is_string()"), (r"is_field: true", "is_field: false"), (r"is_field: false", "is_field: true"), (r"\.filter_map\(", ".flat_map("),
+        (r"\.clone\(\)\.all\(", ".all("), (r"idx \+ 1", "idx"), (r"n \+= 1;", ""), (r"Entry::Vacant", "Entry::Occupied"), (r"\? *;\s*$", ".ok();")]
+
+
+def candidates(files, ops=None):
+    global OPS
+    if ops is not None:
+        OPS = ops
     out = []
     for f in files:
         lines = open(os.path.join("/repo", f)).read().split("\n")
@@ -83,9 +94,10 @@ if __name__ == "__main__":
     ap.add_argument("--jobs", type=int, default=8)
     ap.add_argument("--stride", type=int, default=1)
     ap.add_argument("--offset", type=int, default=0)
+    ap.add_argument("--ops2", action="store_true")
     a = ap.parse_args()
     files = a.files.split(",") if a.files else FILES
-    cands = candidates(files)[a.offset::a.stride]
+    cands = candidates(files, OPS2 if a.ops2 else None)[a.offset::a.stride]
     if a.max:
         cands = cands[:a.max]
     print("mutants:", len(cands), flush=True)
